@@ -569,7 +569,7 @@ where
             bdf.scratch_pad = -(bdf.derivative)(t + bdf.dt.real(), y, data)?
                 * bdf.dt
                 * bdf.lower_coefficients[0];
-            for (ind, &coeff) in bdf.higher_coefficients.column(0).iter().enumerate().skip(1) {
+            for (ind, &coeff) in bdf.lower_coefficients.column(0).iter().enumerate().skip(1) {
                 bdf.scratch_pad += &bdf.prev_values[O - ind].1 * coeff;
             }
             Ok(
